@@ -26,7 +26,7 @@ EDITS = ["label-add", "label-remove", "label-rename", "annot-remove", "annot-alt
          "section-add", "section-remove", "section-rename", "strip-all-blank", "strip-all-labels", "strip-all-sections", "format-remove", "format-alter", "format-add", "indent", "bytes-content", "bytes-length", "cont-add", "cont-remove", "bytes-column-remove"]
 FLOORS = {f"edit={e}": 0.012 for e in EDITS}
 FLOORS.update({"kinds>=2": 0.4, "edit=format-add": 0.001})
-NAMES = ["see file format notes", "main", "_start", "f@plt", ".text", "foo+0x10", "_ZN3foo3barEv", "foo(int)", "operator new(unsigned long)", "x", "L1", "data_16", "sym.with.dots", "null check:", "0x2000 <main>:", "note: see below", "Disassembly of section .text:"]
+NAMES = ["see file format notes", "main", "_start", "f@plt", ".text", "foo+0x10", "_ZN3foo3barEv", "foo(int)", "operator new(unsigned long)", "x", "L1", "data_16", "sym.with.dots", "null check:", "0x2000 <main>:", "note: see below", "Disassembly of section .text:", "operator>>", "std::vector<int>::at(unsigned long)", "a<b>::c", "operator>>", "T<U>", "std::map<K, V>::find"]
 INST = re.compile(r"^(\s*)([0-9a-f]+):\t((?:[0-9a-f]{2} )+)(\s*)\t(\S.*)$")
 
 
@@ -44,6 +44,10 @@ def cases(draw):
     for _ in range(draw(st.integers(1, 6))):
         edits.append({"kind": draw(st.sampled_from(EDITS)), "where": draw(st.integers(0, 10**6)), "name": draw(st.sampled_from(NAMES)), "n": draw(st.integers(0, 12)),
                       "hex": draw(st.binary(min_size=7, max_size=7)).hex()})
+    if draw(st.integers(0, 3)) == 0:
+        # a C++ symbol in an annotation: the name itself contains '<', '>' and blanks (objdump -C)
+        edits.append({"kind": "annot-alter", "where": draw(st.integers(0, 10**6)), "name": draw(st.sampled_from(["operator>>", "std::vector<int>::at(unsigned long)", "a<b>::c", "T<U>", "std::map<K, V>::find"])),
+                      "n": draw(st.integers(0, 12)), "hex": "00000000000000"})
     return {"base": base, "edits": edits, "pick": draw(st.integers(0, 10**6))}
 
 
@@ -229,12 +233,19 @@ def evaluate(case):
         if first:
             # the stream again with the address-range observer installed (same option on both sides)
             # and a `sections` list, which concerns binaries only and must not make section headers of a listing matter
-            rp2 = sc.write("c16_rule_range.yaml", jasm_io.rule_text(jasm_io.make_doc(rule, config={"valid_addr_range": {"min": "0x1000", "max": "0x2000"}, "sections": [".text", ".init"]})))
+            import zlib
+
+            cfg2 = {"valid_addr_range": {"min": "0x1000", "max": "0x2000"}, "sections": [".text", ".init"]}
+            st_ = [None, "intel", "att", "intel"][zlib.crc32(text.encode()) % 4]
+            if st_:
+                cfg2["style"] = st_  # the style a rule asks objdump for: a text listing is read the same way whatever it says
+                ev.tags.append("config-style=" + st_)
+            rp2 = sc.write("c16_rule_range.yaml", jasm_io.rule_text(jasm_io.make_doc(rule, config=cfg2)))
             a = jasm_io.match_files(rp2, p0, mode="str")
             b = jasm_io.match_files(rp2, p1, mode="str")
             ev.subcases += 1
             if "inconclusive" not in (a[0], b[0]) and a[:2] != b[:2]:
-                ev.dev("result-changed-by-presentation", mode="str", with_config="valid_addr_range+sections", edits=applied, **_first_diff(a, b))
+                ev.dev("result-changed-by-presentation", mode="str", with_config="valid_addr_range+sections" + ("+style=" + st_ if st_ else ""), edits=applied, **_first_diff(a, b))
                 break
         first = False
         for mode, search, only in modes + [("list", "all", False)]:
